@@ -188,5 +188,231 @@ Proof.
   destruct r; cbn [build_trnrq spec_wrapper];
   unfold stmttrnrq, ccstmttrnrq, invstmttrnrq, stmtendtrnrq, ccstmtendtrnrq, trnrq,
          mk_BANKACCTFROM, mk_CCACCTFROM, mk_INVACCTFROM, mk_INCTRAN, mk_INCPOS; intros H; inv_ok.
-  Show.
-Abort.
+  1,2,4,5: inv_aggs; inv_fields; unfold wrapper, acct_bank, acct_cc, inctran_node; cbn [olist app]; rewrite ?app_nil_r; reflexivity.
+  destruct inctran as [[|]|]; inv_ok; subst; inv_aggs; inv_fields;
+    unfold wrapper, acct_inv, inctran_node; cbn [olist app]; rewrite ?app_nil_r; reflexivity.
+Qed.
+
+(* ------------------------------------------------------------------ the two sorts: generated names, fixed ranks *)
+Definition krank (k : kind) : nat :=
+  match k with KCcStmtEnd => 0 | KCcStmt => 1 | KInvStmt => 2 | KStmtEnd => 3 | KStmt => 4 end%nat.
+Definition mrank (m : msgset) : nat := match m with MBank => 0 | MCc => 1 | MInv => 2 end%nat.
+(** the order of the class names regenerated from Client.py: CcStmtEndRq < CcStmtRq < InvStmtRq < StmtEndRq < StmtRq *)
+Lemma kind_order k1 k2 : text_leb (kind_name k1) (kind_name k2) = Nat.leb (krank k1) (krank k2).
+Proof. destruct k1, k2; vm_compute; reflexivity. Qed.
+(** BANKMSGSRQV1 < CREDITCARDMSGSRQV1 < INVSTMTMSGSRQV1 *)
+Lemma msgset_order m1 m2 : text_leb (msgset_name m1) (msgset_name m2) = Nat.leb (mrank m1) (mrank m2).
+Proof. destruct m1, m2; vm_compute; reflexivity. Qed.
+
+Lemma kind_eqb_eq a b : kind_eqb a b = true <-> a = b.
+Proof. destruct a, b; cbn; split; congruence. Qed.
+Lemma msgset_eqb_eq a b : msgset_eqb a b = true <-> a = b.
+Proof. destruct a, b; cbn; split; congruence. Qed.
+
+(** the requests of one kind, in request order *)
+Definition of_kind (k : kind) (reqs : list rq) : list rq := filter (fun r => kind_eqb (kind_of r) k) reqs.
+
+Lemma of_rank_kind k reqs : of_rank (fun r => krank (kind_of r)) (krank k) reqs = of_kind k reqs.
+Proof. unfold of_rank, of_kind. apply filter_ext. intros r. destruct (kind_of r), k; reflexivity. Qed.
+
+Lemma sort_closed reqs :
+  isort kind_leb reqs =
+  (of_kind KCcStmtEnd reqs ++ of_kind KCcStmt reqs ++ of_kind KInvStmt reqs ++ of_kind KStmtEnd reqs ++ of_kind KStmt reqs)%list.
+Proof.
+  rewrite (isort_ext kind_leb (rleb (fun r => krank (kind_of r)))) by (intros a b; apply kind_order).
+  rewrite (isort_by_ranks _ 5).
+  - unfold by_ranks. cbn [seq flat_map].
+    rewrite <- (of_rank_kind KCcStmtEnd), <- (of_rank_kind KCcStmt), <- (of_rank_kind KInvStmt),
+            <- (of_rank_kind KStmtEnd), <- (of_rank_kind KStmt). cbn [krank]. rewrite app_nil_r. reflexivity.
+  - apply Forall_forall. intros r _. destruct (kind_of r); cbn [krank]; lia.
+Qed.
+
+Definition kblocks (reqs : list rq) : list (kind * list rq) :=
+  [(KCcStmtEnd, of_kind KCcStmtEnd reqs); (KCcStmt, of_kind KCcStmt reqs); (KInvStmt, of_kind KInvStmt reqs);
+   (KStmtEnd, of_kind KStmtEnd reqs); (KStmt, of_kind KStmt reqs)].
+
+Lemma of_kind_key k reqs : Forall (fun r => kind_of r = k) (of_kind k reqs).
+Proof. apply Forall_forall. intros r H. apply filter_In in H. apply kind_eqb_eq, H. Qed.
+
+Lemma groups_closed reqs : groupby kind_eqb kind_of (isort kind_leb reqs) = flat_map block (kblocks reqs).
+Proof.
+  rewrite sort_closed.
+  pose proof (groupby_blocks kind_eqb kind_of kind_eqb_eq (kblocks reqs)) as G.
+  cbn [kblocks blocks_of snd map fst] in G. rewrite app_nil_r in G. apply G.
+  - repeat constructor; cbn; intuition congruence.
+  - repeat constructor; cbn [fst snd]; apply of_kind_key.
+Qed.
+
+(* ------------------------------------------------------------------ threading the uuid stream *)
+Definition W (c : cfg) (l : list rq) (us : list text) : list etree :=
+  map (fun p => spec_wrapper c (fst p) (snd p)) (combine l us).
+Definition blk (m : msgset) (ws : list etree) : list (msgset * list etree) :=
+  match ws with [] => [] | _ :: _ => [(m, ws)] end.
+
+Lemma wrap_all_ok c l : forall uu ws uu',
+  wrap_all c l uu = OK (ws, uu') ->
+  exists us, uu = (us ++ uu')%list /\ List.length us = List.length l /\ ws = W c l us.
+Proof.
+  induction l as [|r l IH]; intros uu ws uu' H; cbn [wrap_all] in H.
+  - inversion H; subst. exists []. repeat split.
+  - destruct uu as [|u uu1]; [discriminate|]. cbn [take_uuid bind fst snd] in H. inv_ok.
+    match goal with H : build_trnrq _ _ _ = OK _ |- _ => apply build_trnrq_ok in H; subst end.
+    match goal with x : (list etree * list text)%type |- _ => destruct x as [ws1 uu2] end. cbn [fst snd] in *.
+    match goal with H : wrap_all _ _ _ = OK _ |- _ => apply IH in H; destruct H as [us [-> [L ->]]] end.
+    exists (u :: us). split; [reflexivity|]. split; [cbn [List.length]; congruence|]. reflexivity.
+Qed.
+
+Lemma wrap_groups_app c g1 : forall g2 uu res uu',
+  wrap_groups c (g1 ++ g2) uu = OK (res, uu') ->
+  exists r1 u1 r2, wrap_groups c g1 uu = OK (r1, u1) /\ wrap_groups c g2 u1 = OK (r2, uu') /\ res = (r1 ++ r2)%list.
+Proof.
+  induction g1 as [|[k rqs] g1 IH]; intros g2 uu res uu' H.
+  - exists [], uu, res. repeat split. exact H.
+  - cbn [app wrap_groups] in *. inv_ok.
+    repeat match goal with x : (_ * _)%type |- _ => destruct x end. cbn [fst snd] in *.
+    match goal with H : wrap_groups _ (_ ++ _) _ = OK _ |- _ => apply IH in H; destruct H as [r1 [u3 [r2 [E1 [E2 ->]]]]] end.
+    inversion H; subst.
+    match goal with H : wrap_all _ _ _ = OK _ |- _ => rewrite H end. cbn [bind fst snd]. rewrite E1. cbn [bind fst snd].
+    eexists _, _, _. split; [reflexivity|]. split; [exact E2|reflexivity].
+Qed.
+
+Lemma wrap_groups_block c k b uu res uu' :
+  wrap_groups c (block (k, b)) uu = OK (res, uu') ->
+  exists us, uu = (us ++ uu')%list /\ List.length us = List.length b /\ res = blk (msgset_of k) (W c b us).
+Proof.
+  unfold block. cbn [snd]. destruct b as [|r b].
+  - cbn [wrap_groups]. intros H. inversion H; subst. exists []. repeat split.
+  - cbn [wrap_groups]. intros H. inv_ok.
+    repeat match goal with x : (_ * _)%type |- _ => destruct x end. cbn [fst snd] in *. inversion H; subst.
+    match goal with H : wrap_all _ _ _ = OK _ |- _ => apply wrap_all_ok in H; destruct H as [us [-> [L ->]]] end.
+    repeat match goal with H : (_, _) = (_, _) |- _ => inversion H; subst; clear H end.
+    exists us. split; [reflexivity|]. split; [assumption|].
+    destruct us as [|u us]; [discriminate L|]. reflexivity.
+Qed.
+
+(* ------------------------------------------------------------------ second sort, grouping, dict *)
+Definition mset (m : msgset) (ws : list etree) : option etree :=
+  match ws with [] => None | _ :: _ => Some (Node (msgset_name m) None ws) end.
+Definition members (m : msgset) (res : list (msgset * list etree)) : list etree :=
+  List.concat (map snd (filter (fun p => msgset_eqb (fst p) m) res)).
+
+Lemma of_rank_msgset m (res : list (msgset * list etree)) :
+  of_rank (fun p => mrank (fst p)) (mrank m) res = filter (fun p => msgset_eqb (fst p) m) res.
+Proof. unfold of_rank. apply filter_ext. intros p. destruct (fst p), m; reflexivity. Qed.
+
+Lemma stage2 res msgs :
+  Forall (fun p : msgset * list etree => snd p <> []) res ->
+  mk_msgs (groupby msgset_eqb fst (isort pair_leb res)) = OK msgs ->
+  forall m, dict_get m msgs = mset m (members m res).
+Proof.
+  intros NE H.
+  rewrite (isort_ext pair_leb (rleb (fun p => mrank (fst p)))) in H by (intros a b; apply msgset_order).
+  rewrite (isort_by_ranks _ 3) in H by (apply Forall_forall; intros p _; destruct (fst p); cbn [mrank]; lia).
+  unfold by_ranks in H. cbn [seq flat_map] in H.
+  change 2%nat with (mrank MInv) in H. change 1%nat with (mrank MCc) in H. change 0%nat with (mrank MBank) in H.
+  rewrite !of_rank_msgset in H. rewrite app_nil_r in H.
+  pose (F := fun m => filter (fun p : msgset * list etree => msgset_eqb (fst p) m) res).
+  change (filter (fun p : msgset * list etree => msgset_eqb (fst p) MBank) res) with (F MBank) in H.
+  change (filter (fun p : msgset * list etree => msgset_eqb (fst p) MCc) res) with (F MCc) in H.
+  change (filter (fun p : msgset * list etree => msgset_eqb (fst p) MInv) res) with (F MInv) in H.
+  assert (FNE : forall m p l, F m = p :: l -> exists y ys, snd p = y :: ys).
+  { intros m p l E. assert (I : In p (F m)) by (rewrite E; left; reflexivity).
+    unfold F in I. apply filter_In in I. destruct I as [I _].
+    rewrite Forall_forall in NE. specialize (NE p I). destruct (snd p) as [|y ys]; [congruence|eauto]. }
+  pose proof (groupby_blocks msgset_eqb fst msgset_eqb_eq [(MBank, F MBank); (MCc, F MCc); (MInv, F MInv)]) as G.
+  cbn [blocks_of snd map fst] in G. rewrite app_nil_r in G.
+  destruct G as [G _].
+  { repeat constructor; cbn; intuition congruence. }
+  { repeat constructor; cbn [fst snd]; apply Forall_forall; intros p I; apply filter_In in I; apply msgset_eqb_eq, I. }
+  rewrite G in H. clear G. cbn [flat_map] in H. unfold block in H. cbn [snd] in H.
+  intros m. unfold members. change (filter (fun p : msgset * list etree => msgset_eqb (fst p) m) res) with (F m).
+  destruct (F MBank) as [|p0 l0] eqn:E0; destruct (F MCc) as [|p1 l1] eqn:E1; destruct (F MInv) as [|p2 l2] eqn:E2;
+    cbn [app mk_msgs] in H; inv_ok; subst;
+    repeat match goal with H : aggl _ _ = OK _ |- _ => apply aggl_ok in H; subst end;
+    try (destruct (FNE _ _ _ E0) as [y0 [ys0 Y0]]); try (destruct (FNE _ _ _ E1) as [y1 [ys1 Y1]]);
+    try (destruct (FNE _ _ _ E2) as [y2 [ys2 Y2]]);
+    destruct m; rewrite ?E0, ?E1, ?E2; cbn [map List.concat snd fst];
+    rewrite ?Y0, ?Y1, ?Y2; reflexivity.
+Qed.
+
+Lemma blk_ne m ws : Forall (fun p : msgset * list etree => snd p <> []) (blk m ws).
+Proof. destruct ws; cbn [blk]; repeat constructor. cbn [snd]. discriminate. Qed.
+Lemma members_app m a b : members m (a ++ b) = (members m a ++ members m b)%list.
+Proof. unfold members. rewrite filter_app, map_app, concat_app. reflexivity. Qed.
+Lemma members_blk m m' ws : members m (blk m' ws) = if msgset_eqb m' m then ws else [].
+Proof.
+  unfold members. destruct ws as [|w ws]; cbn [blk filter fst]; [destruct (msgset_eqb m' m); reflexivity|].
+  destruct (msgset_eqb m' m); cbn [map snd List.concat]; [apply app_nil_r|reflexivity].
+Qed.
+
+(* ------------------------------------------------------------------ serialize, header *)
+Lemma serialize_ok c ov oc nf body r :
+  serialize c ov oc nf body = OK r ->
+  c_body r = body /\ header_text (dflt ov (version c)) nf = OK (c_header r)
+  /\ negb (dflt oc (close_elements c)) && (200 <=? dflt ov (version c)) = false.
+Proof.
+  unfold serialize. intros H. inv_ok.
+  destruct (negb (dflt oc (close_elements c)) && (200 <=? dflt ov (version c))); [discriminate|].
+  inversion H; subst. cbn [c_body c_header]. repeat split; assumption.
+Qed.
+
+Lemma mk_OFX_ok so rest t :
+  mk_OFX so rest = OK t -> exists ch, collect rest = OK ch /\ t = Node (T "OFX") None (so :: ch).
+Proof.
+  unfold mk_OFX. intros H. apply agg_ok in H. destruct H as [ch [Hc ->]].
+  apply collect_cons in Hc. destruct Hc as [a [b [Ha [Hb ->]]]]. apply fsub_ok in Ha. subst. eauto.
+Qed.
+
+(** the uuid taken for NEWFILEUID *)
+Lemma newfileuid_ok (gen : bool) uu (nf : option text * list text) :
+  (if gen then rmap (fun p : text * list text => (Some (fst p), snd p)) (take_uuid uu) else OK (None, uu)) = OK nf ->
+  fst nf = (if gen then hd_error uu else None).
+Proof.
+  destruct gen; intros H; [|inversion H; reflexivity].
+  destruct uu as [|u uu]; cbn [take_uuid rmap] in H; [discriminate|]. inversion H. reflexivity.
+Qed.
+
+(* ------------------------------------------------------------------ request_statements, closed form *)
+Theorem statements_closed c uuids d pw gen reqs r :
+  request_statements c uuids d pw gen reqs = OK r ->
+  exists u0 u1 u2 u3 u4 rest,
+    uuids = (u0 ++ u1 ++ u2 ++ u3 ++ u4 ++ rest)%list
+    /\ List.length u0 = List.length (of_kind KCcStmtEnd reqs) /\ List.length u1 = List.length (of_kind KCcStmt reqs)
+    /\ List.length u2 = List.length (of_kind KInvStmt reqs) /\ List.length u3 = List.length (of_kind KStmtEnd reqs)
+    /\ List.length u4 = List.length (of_kind KStmt reqs)
+    /\ c_body r = Node (T "OFX") None
+         (spec_signon c d (userid c) pw
+          :: olist (mset MBank (W c (of_kind KStmtEnd reqs) u3 ++ W c (of_kind KStmt reqs) u4))
+          ++ olist (mset MCc (W c (of_kind KCcStmtEnd reqs) u0 ++ W c (of_kind KCcStmt reqs) u1))
+          ++ olist (mset MInv (W c (of_kind KInvStmt reqs) u2)))%list
+    /\ header_text (version c) (if gen then hd_error rest else None) = OK (c_header r)
+    /\ negb (close_elements c) && (200 <=? version c) = false.
+Proof.
+  unfold request_statements. intros H. inv_ok.
+  match goal with H : wrap_groups _ _ _ = OK _ |- _ => rename H into HW end.
+  rewrite groups_closed in HW. cbn [kblocks flat_map] in HW.
+  match goal with x : (list (msgset * list etree) * list text)%type |- _ => destruct x as [res uu'] end. cbn [fst snd] in *.
+  apply wrap_groups_app in HW. destruct HW as [r0 [v0 [q0 [B0 [HW ->]]]]].
+  apply wrap_groups_app in HW. destruct HW as [r1 [v1 [q1 [B1 [HW ->]]]]].
+  apply wrap_groups_app in HW. destruct HW as [r2 [v2 [q2 [B2 [HW ->]]]]].
+  apply wrap_groups_app in HW. destruct HW as [r3 [v3 [q3 [B3 [HW ->]]]]].
+  apply wrap_groups_app in HW. destruct HW as [r4 [v4 [q4 [B4 [HW ->]]]]].
+  cbn [wrap_groups] in HW. inversion HW; subst; clear HW.
+  apply wrap_groups_block in B0. destruct B0 as [u0 [-> [L0 ->]]].
+  apply wrap_groups_block in B1. destruct B1 as [u1 [-> [L1 ->]]].
+  apply wrap_groups_block in B2. destruct B2 as [u2 [-> [L2 ->]]].
+  apply wrap_groups_block in B3. destruct B3 as [u3 [-> [L3 ->]]].
+  apply wrap_groups_block in B4. destruct B4 as [u4 [-> [L4 ->]]].
+  match goal with H : mk_msgs _ = OK _ |- _ => rename H into HM end.
+  pose proof (stage2 _ _ (ltac:(repeat (apply Forall_app; split); try apply blk_ne; constructor)) HM) as D.
+  match goal with H : signon _ _ _ _ = OK _ |- _ => apply signon_shape in H; destruct H as [-> _] end.
+  match goal with H : mk_OFX _ _ = OK _ |- _ => apply mk_OFX_ok in H; destruct H as [ch [Hc ->]] end.
+  repeat (apply collect_cons in Hc; let a := fresh "a" in let b := fresh "b" in let Ha := fresh "Ha" in
+          destruct Hc as [a [b [Ha [Hc ->]]]]).
+  apply collect_nil in Hc. subst. inv_fields.
+  rewrite !D. rewrite !members_app, !members_blk. cbn [msgset_of msgset_eqb app]. rewrite !app_nil_r.
+  match goal with H : serialize _ _ _ _ _ = OK _ |- _ => apply serialize_ok in H; destruct H as [Eb [Eh Eg]] end.
+  match goal with H : _ = OK ?nf |- _ => apply newfileuid_ok in H; rename H into En end.
+  exists u0, u1, u2, u3, u4, uu'. cbn [dflt] in *. rewrite En in Eh. rewrite Eb.
+  repeat (split; [assumption || reflexivity|]). assumption.
+Qed.
